@@ -63,6 +63,13 @@ def spec_items(tier):
                 for two in (False, True):
                     row0 = (('a', ((1, one),), F(-1)),) + ((('b', ((0, F(1, 2)), (1, F(1, 2))), F(-1)),) if two else ())
                     yield ('mdp', 3, (row0, (('a', exit_d, F(0)),), (('a', ((back, one),), F(-1) if back == 0 else F(0)),)), (1,), ((0, one),), g)
+    # zero-probability entries in the initial distribution: for a state that never reaches an absorbing state (placeholder,
+    # possibly -inf) and for a state nothing else leads to (not part of an inferred state list)
+    for g in (F(9, 10), F(1)):
+        T = ((('a', ((1, one),), F(-1)), ('b', ((2, F(1, 2)), (1, F(1, 2))), F(0))), (('a', ((1, one),), F(0)),),
+             (('a', ((2, one),), F(-1)),), (('a', ((1, one),), F(-3)),))
+        yield ('mdp', 4, T, (1,), ((0, one), (2, F(0))), g)
+        yield ('mdp', 4, T, (1,), ((0, F(1, 2)), (3, F(0)), (1, F(1, 2))), g)
     # three listed actions, states that offer only some of them -- among them states that can never reach an absorbing state
     for g in (F(9, 10), F(1)):
         for acts2 in (('a', 'b'), ('c',), ('a', 'c')):
@@ -166,7 +173,7 @@ def check_result(res, name, mdp, spec, ref, tol, exact_ties, undef, r, item, sla
         r.count('tie_sets_checked')
     # initial value
     iv = float(res.initial_value)
-    exp_iv = sum(reported[s] * float(p) for s, p in spec.init.items() if p > 0 or True)
+    exp_iv = sum(reported[s] * float(p) for s, p in spec.init.items() if p > 0)      # zero-probability entries do not count
     if not (iv == exp_iv or abs(iv - exp_iv) <= 1e-12 * max(1, abs(exp_iv))):
         bad('initial_value', {'reported': iv, 'expected': exp_iv})
     # exact evaluation of the returned policy (trap-zero semantics, as the property puts the
